@@ -521,6 +521,7 @@ def draw_swarm(rng):
         "second_program": rng.random() < 0.3,
         "deep_rec": rng.random() < 0.25,
         "two_module": rng.random() < 0.15,
+        "p_invx": rng.choice([0.0, 0.0, 0.08, 0.2]),
         "aggregate_stores_only": rng.random() < 0.2,
         # always False: the optimisation passes have defects of their own on the
         # unchanged tree (`++gi; p0 = gi;` crashes with -O) which are C02's matter
@@ -636,6 +637,14 @@ def gen_scenario(seed, tier="quick"):
                 break
             if too_big(m.g):
                 break
+            if len(args) >= 1 and rng.random() < sw.get("p_invx", 0.0):
+                # the host leaves one argument out (whatever the VM does with that, it must do the
+                # same as a brand-new VM with the same globals); the generator cannot predict the
+                # outcome, the executor adopts the observed state
+                omitted = dict(args)
+                omitted.pop(rng.choice(sorted(omitted)))
+                ops.append(["invx", v, f["name"], omitted])
+                continue
             ops.append(["inv", v, f["name"], args])
             try:
                 models[v].invoke(f["name"], copy.deepcopy(margs))
